@@ -541,8 +541,9 @@ def module_job(arg):
             for i, c in zip(pos, combo):
                 t[i] = c
             cases += 1
-            if val(''.join(t))[0] == 'ok':
-                return True
+            v = ''.join(t)
+            if val(v)[:2] == ('ok', v):     # a valid number in canonical form of this very shape (not another
+                return True                 # presentation that validate() converts, e.g. it.aic base 32 / ch.uid prefix)
         return False
 
     def attempt(m, n0, origin):
@@ -567,6 +568,13 @@ def module_job(arg):
                     v = m[:a] + c + m[b:]
                     cases += 1
                     o = val(v)
+                    if o[0] == 'ok' and o[1] != v:
+                        # accepted as another presentation of a number (prefix added, base converted): the
+                        # projection speaks about the canonical number, which (a) checks
+                        if isinstance(o[1], str) and val(o[1])[:2] == ('ok', o[1]) and o[1] not in poolset:
+                            poolset.add(o[1])
+                            pool.append(o[1])
+                        continue
                     if o[0] == 'ok' and applies(p, v) and not (p.get('alt') and ALT[p['alt']](v)):
                         nontrivial.add(('n', v))
                         col.add(_chk.make_case(
@@ -749,8 +757,20 @@ def search(seed, tier):
     }
 
 
+def _replay_site(case):
+    """entries written in the census shape lack the projection / the number: re-run the module's job (quick tier)
+    and report the smallest case found at the same (function, site), if any"""
+    col = _chk.Collector()
+    for kw in validate_option_sets(case['module']):
+        col.merge(module_job((case['module'], kw, int(case.get('seed', 1)), 'quick'))['sites'])
+    same = [c for c in col.failing(None) if c['function'] == case['function'] and c['site'] == case.get('site')]
+    return dict(case, **{k: v for k, v in same[0].items() if k not in ('site_total',)}) if same else None
+
+
 def replay(case):
     with common.frozen_today(_chk.case_today(case)):
+        if 'relation' not in case or ('projection' not in case and 'projections' not in case):
+            return _replay_site(case)
         mod = common.module(case['module'])
         args, kwargs = _chk.case_args(case)
         rel = case.get('relation', '')[:1]
